@@ -5,41 +5,7 @@ import os
 VERIF = os.path.dirname(os.path.dirname(os.path.abspath(__file__)))
 BASE = "cd /repo && /venv/bin/python -m pytest -ra -q -p no:cacheprovider --timeout=900 --continue-on-collection-errors"
 
-CLAIMED = {
-    "C15": dict(
-        category="proof",
-        text=("Machine-checked (Coq) proof over a Gallina model of posixpath.normpath/join/dirname/abspath and "
-              "extract_member/extractall: for every destination other than the root and every list of member names over "
-              "arbitrary characters, each path created or written is the destination or lexically inside it (no '..', '.', "
-              "empty components), written files strictly inside; an escaping member ends the run as Rejected with exactly the "
-              "effects of the members before it.  The model is tied to the code on every run by a differential run of the "
-              "extracted model against nuwiki.extractall on generated zips in a sandbox, plus a filesystem-diff oracle."),
-        design_ref="DESIGN.md §6 C15",
-        note=("Trusted: Coq kernel; extraction with ExtrOcamlBasic; the hand-written model (tied only by the differential run); "
-              "zipfile; premise that the destination exists and holds no symlinks; POSIX separators only."),
-        technique="Coq proof (induction over component lists) + extracted-model differential correspondence + fs-diff search",
-    ),
-}
-
-CLAIMED["C10"] = dict(
-    category="proof",
-    text=("Machine-checked (Coq) proof that for every text (any list of code points, unbounded) the scanner model terminates "
-          "normally and its token spans tile the text before the first NUL: spans are non-empty, ordered, start at 0 and end at "
-          "the end, every gap between them consists of U+EBAD only, and nothing else is dropped (theorem C10_tiling and "
-          "consequences). The model is the rule table regenerated from _uscan.re on every run by a fail-closed translator, re2c "
-          "longest-match/first-rule semantics over a verified derivative matcher, and a hand transcription of every action "
-          "(found/merge/last_ebad, tablemode, rowchar, section retagging, the cursor rewinds, newline/break split). It is tied to "
-          "the running code by an exhaustive differential run of the extracted scanner against the rebuilt _uscan.cc through "
-          "utoken.scan (1.4M texts quick, 30M thorough, exact token lists), plus the tiling oracle on the real output."),
-    design_ref="DESIGN.md §6 C10",
-    note=("Trusted: Coq kernel and vm_compute; the re2c-subset translator vt/gen/c10_rules.py; the hand transcription of the C++ "
-          "actions (pinned textually against _uscan.cc and tied by the differential run); ExtrOcamlBasic extraction and "
-          "ocaml/c10/driver.ml; re2c code generation and the C++/CPython glue (covered only by the differential run). Not "
-          "modelled: int overflow of tablemode and offsets. A U+EBAD inside a URL, html tag or comment is covered by that token, "
-          "which the property allows."),
-    technique=("Coq proof (derivative matcher correctness, rule-table obligations by vm_compute, loop invariant over the consumed "
-               "prefix) + source-to-Coq rule translator + extracted-model exhaustive differential correspondence + tiling-oracle search"),
-)
+CLAIMED = {}
 
 _cj = os.path.join(VERIF, 'vt', 'claims.json')
 if os.path.exists(_cj):
